@@ -1,6 +1,8 @@
 """Developer helper: run obligations of one family in-process and print per-obligation statistics."""
 import sys
 import time
+from symx import instrument
+instrument.install()
 import json
 from harness.common import new_result, load_findings
 
